@@ -576,8 +576,8 @@ Lemma cmc_head (sm : list R) p : length sm = S p ->
   exists cs, central_moment_coefficients R_ops sm = nth p sm 0 :: cs.
 Proof.
   intros HL. unfold central_moment_coefficients.
-  pose proof (iter_binomial_head (length sm)) as Hb.
-  destruct (iter_binomial (length sm)) as [|b bs]; [discriminate Hb|]. cbn [hd] in Hb. subst b.
+  pose proof (iter_binomial_head (Nat.pred (length sm))) as Hb.
+  destruct (iter_binomial (Nat.pred (length sm))) as [|b bs]; [discriminate Hb|]. cbn [hd] in Hb. subst b.
   pose proof (rev_nth sm 0 (n := 0) ltac:(lia)) as Hr.
   destruct (rev sm) as [|y ys] eqn:Er.
   { apply (f_equal (@length R)) in Er. rewrite rev_length in Er. cbn [length] in Er. lia. }
